@@ -38,6 +38,9 @@ harness/src/c15.rs is the only evidence, on the inputs it generates):
 * distances and coordinates are an abstract `α`: NaN, infinities, negative lengths are loaded as
   listed and nothing here says they are sensible.
 -/
+import Compass.Gen.Decisions
+import Compass.Proofs.Num
+import Compass.Model.Graph
 import Compass.Proofs.Graph
 import Compass.Proofs.GraphIO
 import Compass.Proofs.Container
@@ -1495,6 +1498,30 @@ example : exRecs.map decodeVertexRow = (wVertices 2).map Row.ok :=
         ⟨[("vertex_id", ⟨some 1, some 1⟩), ("name", ⟨none, none⟩)], ⟨some 10, some 10⟩, [("y", ⟨some 20, some 20⟩)], rfl, rfl, by decide, by decide⟩,
         ⟨[("vertex_id", ⟨some 1, some 1⟩), ("name", ⟨none, none⟩), ("x", ⟨some 10, some 10⟩)], ⟨some 20, some 20⟩, [], rfl, rfl, by decide, by decide⟩⟩
     | k + 2, h1, _ => exact absurd h1 (by simp [exRecs]))
+
+end C15
+end Compass
+
+namespace Compass
+namespace C15
+open Src
+
+/-! ### Source decision ties
+
+The relational operators at the named comparison sites of the Rust source are re-extracted on every run
+by `tools/gen_model.py` into `Compass/Gen/Decisions.lean` (`Src.<site> : Src.Rel`).  Each theorem below
+says that the hand-written model decides at that site by exactly the operator the source has there
+(`Rel.nat` / `Rel.int` / `Rel.num` interpret the extracted operator; an unrecognised line is `none`).  A
+source change that turns `<` into `<=`, `>` into `>=`, … at a site changes the generated constant and this
+proof obligation stops checking, whether or not a generated case lands on the tie. -/
+
+theorem src_loader_endpoints_in_range {α : Type} (es : List (Edge α)) (n : Nat) :
+    endpointsWithin es n =
+      es.all (fun e => (loader_src_in_range.nat e.src n == some false) &&
+                       (loader_dst_in_range.nat e.dst n == some false)) := by
+  simp only [endpointsWithin, loader_src_in_range, loader_dst_in_range, Rel.nat]
+  congr 1; funext e
+  by_cases h1 : e.src < n <;> by_cases h2 : e.dst < n <;> simp [h1, h2] <;> omega
 
 end C15
 end Compass
